@@ -114,6 +114,19 @@ type peerA struct {
 	retSpecUsed *retSpec
 	fwdOf   *peerQ // this is the Conn looping one of the peer's calls back
 	bootExport *peerExport
+	// embargo bookkeeping: result paths of calls pipelined on this answer
+	// that the peer received before it sent the Return (the Conn had marked
+	// them when it parsed the Return), and the paths of the sender-loopback
+	// Disembargoes received for it
+	pipedBeforeRet [][]int
+	disPaths       [][]int
+	retAfterFinish bool // the Finish had been seen when the Return was sent
+}
+
+// heldForward is a looped-back call the proxy has not forwarded yet.
+type heldForward struct {
+	a  *peerA
+	ce *connExport
 }
 
 // peerEmbargo is a peer-initiated sender-loopback disembargo.
@@ -223,6 +236,11 @@ type solo struct {
 	rpcIgnoredReported bool
 
 	rounds []*embargoRound
+	// holdAns: while set, calls pipelined on this answer that resolve to a
+	// capability hosted by the Conn are kept back by the proxy (FIFO) until
+	// the Disembargo for their path arrives or the macro ends
+	holdAns *peerA
+	heldFwd []heldForward
 	appBoots      []*appBoot
 	handleBoundT  map[int]int64
 	busyHandle    map[int]*appCall
